@@ -2,7 +2,7 @@
    call_builtin (Builtins.v) is the sequence model itself, extracted and compared with the crate call by call in both index-base
    configurations; the theorems below are the coherence facts of the statement over the model's own search / slicing functions. *)
 Require Import ZArith NArith Bool List Arith. Import ListNotations.
-Require Import F64 Dec Types Generic Lang Builtins BuiltinFacts GenBuiltins.
+Require Import F64 Dec Types Generic Lang Builtins BuiltinFacts TimeFacts IndexFacts GenBuiltins.
 
 (* find returns a position where the needle occurs, the first such position, and fails only when there is none - every code point list *)
 Theorem C15_find_sound : forall n s i, find_sub n s = Some i -> firstn (length n) (skipn i s) = n /\ (i + length n <= length s)%nat.
@@ -19,6 +19,23 @@ Theorem C15_at_enumerates : forall (s:list N), map (nth_error s) (seq 0 (length 
 Proof. exact (@at_enumerates N). Qed.
 Theorem C15_reverse_involutive : forall (l:list value), rev (rev l) = l.
 Proof. exact (@reverse_involutive value). Qed.
+(* ... and through the builtins themselves, with positions as the float-valued arguments the scripts pass, in both index-base
+   configurations (off = 1 default, off = 0 zero_based_strings), for every string shorter than 2^52 characters:
+   at over first..first+length-1 enumerates s; find returns first+i for the first occurrence and first-1 when there is none;
+   copy(s, find(s,x), length(x)) = x for every substring x *)
+Theorem C15_at_enumerates_builtin : forall off, (off <= 1)%nat -> forall (s:list N) i c, (Z.of_nat (length s) + 1 <= 2^52)%Z -> nth_error s i = Some c ->
+  call_builtin off at_name [VStr s; pos off i] = BOk (VStr [c]).
+Proof. exact at_enumerates_builtin. Qed.
+Theorem C15_find_builtin : forall off h n, call_builtin off find_name [VStr h; VStr n] =
+  BOk (match find_sub n h with Some i => VNum (of_int (Z.of_nat (i + off))) | None => VNum (of_int (-1 + Z.of_nat off)) end).
+Proof. exact find_builtin. Qed.
+Theorem C15_copy_find_builtin : forall off, (off <= 1)%nat -> forall (s x:list N) i, (Z.of_nat (length s) + 1 <= 2^52)%Z -> find_sub x s = Some i ->
+  call_builtin off copy_name [VStr s; VNum (of_int (Z.of_nat (i + off))); VNum (of_int (Z.of_nat (length x)))] = BOk (VStr x).
+Proof. exact copy_find_builtin. Qed.
+Theorem C15_length_builtin : forall off (s:list N), call_builtin off length_name [VStr s] = BOk (VNum (of_int (Z.of_nat (length s)))).
+Proof. exact length_builtin. Qed.
+Print Assumptions C15_copy_find_builtin.
+
 (* the two index bases of the model are the two values of STRING_OFFSET in the source (regenerated) *)
 Theorem C15_offsets_are_the_codes : gen_string_offset_default = 1%N /\ gen_string_offset_zero_based = 0%N.
 Proof. split; reflexivity. Qed.
